@@ -60,6 +60,13 @@ func ghost_addBoxes(s Store) vcSeq[string] { panic("ghost") }
 func ghost_addMsgs(s Store) vcSeq[Message] { panic("ghost") }
 func ghost_addIDs(s Store) vcSeq[string]   { panic("ghost") }
 
+// ghost_srcNow(m): what m's Source would yield if it were called now (C02; each implementation says
+// what that is where it becomes a Message: spec_link_<T>); ghost_addContents logs it at AddMessage.
+func ghost_srcNow(m Message) vcTok            { panic("ghost") }
+func ghost_addContents(s Store) vcSeq[vcTok]  { panic("ghost") }
+func Ghost_srcNow(m Message) vcTok            { return ghost_srcNow(m) }
+func Ghost_addContentAt(s Store, j int) vcTok { return vcSeqAt(ghost_addContents(s), j) }
+
 func Ghost_nadded(s Store) int              { return ghost_nadded(s) }
 func Ghost_addBoxAt(s Store, j int) string  { return vcSeqAt(ghost_addBoxes(s), j) }
 func Ghost_addMsgAt(s Store, j int) Message { return vcSeqAt(ghost_addMsgs(s), j) }
@@ -67,7 +74,9 @@ func Ghost_addIDAt(s Store, j int) string   { return vcSeqAt(ghost_addIDs(s), j)
 
 //@ iface Store.AddMessage(self Store, message Message) (id string, err error)
 //@   requires message != nil
-//@   modifies ghost_nadded(self), ghost_addBoxes(self), ghost_addMsgs(self), ghost_addIDs(self)
+//@   modifies ghost_nadded(self), ghost_addBoxes(self), ghost_addMsgs(self), ghost_addIDs(self), ghost_addContents(self), allof(ghost_rcontent), allof(ghost_srcContent)
+//@   ensures vcSeqAt(ghost_addContents(self), old(ghost_nadded(self))) == old(ghost_srcNow(message))
+//@   ensures forall j int :: { vcSeqAt(ghost_addContents(self), j) } j < old(ghost_nadded(self)) ==> vcSeqAt(ghost_addContents(self), j) == old(vcSeqAt(ghost_addContents(self), j))
 //@   ensures ghost_nadded(self) == old(ghost_nadded(self)) + 1
 //@   ensures vcSeqAt(ghost_addBoxes(self), old(ghost_nadded(self))) == message.Mailbox()
 //@   ensures vcSeqAt(ghost_addMsgs(self), old(ghost_nadded(self))) == message
